@@ -143,6 +143,27 @@ theorem fixed_point_indices_too_many (s : State K) (pw : K → K) (fpx : Option 
   simp only [step, matchRef_fp_error pw s.x s.y s.rx s.ry fpx (some v) strategy target refRule _
     (fixedPoints_too_many_i s.x s.rx fpx v strategy h)]
 
+/-- fixed points (given as values) that are not samples of `x`: some value of `v` does not occur
+in `x`.  Needs strictly increasing abscissae (so that `np.isin` cannot make up for the missing value
+by a repeated one) and a non-empty strictly increasing reference (so that the nearest-element search
+before the check does not fail first). -/
+theorem fixed_points_not_samples (s : State K) (pw : K → K) (v : List K)
+    (strategy target refRule : String) (hx : s.x.Pairwise (· < ·)) (hrx : s.rx.Pairwise (· < ·))
+    (hrx0 : s.rx ≠ []) (hv : v.length ≤ s.x.length) (a : K) (ha : a ∈ v) (hax : a ∉ s.x) :
+    step s (.integralMatch pw (some v) none strategy target refRule) = fail s .valueError := by
+  simp only [step, matchRef_fp_error pw s.x s.y s.rx s.ry (some v) none strategy target refRule _
+    (fixedPoints_not_samples s.x s.rx v strategy hx hrx hrx0 hv a ha hax)]
+
+/-- the same with the success of the two look-ups before the check as hypotheses instead of the
+shape of the reference -/
+theorem fixed_points_not_samples_partial (s : State K) (pw : K → K) (v : List K)
+    (strategy target refRule : String) (ri : List ℤ) (inRef : List K)
+    (hx : s.x.Pairwise (· < ·)) (hv : v.length ≤ s.x.length) (a : K) (ha : a ∈ v) (hax : a ∉ s.x)
+    (hs : Search.find "closest" true s.rx (uniqueK v) = .ok ri) (ht : takeK s.rx ri = .ok inRef) :
+    step s (.integralMatch pw (some v) none strategy target refRule) = fail s .valueError := by
+  simp only [step, matchRef_fp_error pw s.x s.y s.rx s.ry (some v) none strategy target refRule _
+    (fixedPoints_not_samples_of_search s.x s.rx v strategy ri inRef hx hv a ha hax hs ht)]
+
 /-- unknown interpolation method, `interpolate(n=…)` -/
 theorem interp_unknown_method (s : State K) (n : ℕ) (m : String) (ext : List K)
     (h : Process.Method.ofString? m = none) :
@@ -223,5 +244,102 @@ theorem sliceByValue_first_ok (s : State K) (a : K) (rest : List K) (stp : ℕ) 
     (hx : s.x = a :: rest) : ∃ r, sliceByValue s (some a) none stp = .ok r := by
   rw [sliceByValue_first s a rest none stp hx]
   simp [sliceByValue, sliceByIndex, bind, Except.bind, pure, Except.pure, hs]
+
+/-! ## Non-vacuity, over `ℚ`
+
+`sT` is reached from a 5-point series by a valid history (shift, scale, repeat, truncate,
+interpolate), so that working, reference and original series all differ. -/
+
+private def x5 : List ℚ := [0, 1, 2, 3, 4]
+private def y5 : List ℚ := [5, 3, 8, 1, 2]
+private def s5 : State ℚ :=
+  { x := x5, y := y5, rx := x5, ry := y5, ox := x5, oy := y5, callerX := x5, callerY := y5 }
+private def hist : List (Op ℚ) :=
+  [.shiftX 1, .scaleY 2, .repeat 2, .truncI 1 (some 7), .interpN 11 "linear" []]
+private def sT : State ℚ := (runOps s5 hist).state
+private def pw2 : ℚ → ℚ := fun t => t * t
+
+example : (runOps s5 hist).err = none := by decide +kernel
+example : sT.x = [2, 5/2, 3, 7/2, 4, 9/2, 5, 11/2, 6, 13/2, 7] ∧
+    sT.y = [6, 11, 16, 9, 2, 3, 4, 7, 10, 8, 6] ∧
+    sT.rx = [2, 3, 4, 5, 6, 7] ∧ sT.ry = [6, 16, 2, 4, 10, 6] ∧
+    sT.ox = x5 ∧ sT.oy = y5 := by decide +kernel
+
+/-- the fixed points of the default mode in `sT`: every second sample -/
+private def fpT : FixedPoints ℚ :=
+  { inX := [2, 3, 4, 5, 6, 7], idxX := [0, 2, 4, 6, 8, 10], idxRef := [0, 1, 2, 3, 4, 5] }
+
+private theorem fpT_ok : fixedPoints sT.x sT.rx none none "closest" = .ok fpT := by
+  have hx : sT.x = [2, 5/2, 3, 7/2, 4, 9/2, 5, 11/2, 6, 13/2, 7] := by decide +kernel
+  have hr : sT.rx = [2, 3, 4, 5, 6, 7] := by decide +kernel
+  have hu : uniqueK ([2, 3, 4, 5, 6, 7] : List ℚ) = [2, 3, 4, 5, 6, 7] := by
+    unfold uniqueK
+    rw [List.mergeSort_of_pairwise (by decide +kernel)]
+    decide +kernel
+  rw [hx, hr, fixedPoints_default_eq _ _ "closest" [0, 2, 4, 6, 8, 10] [2, 3, 4, 5, 6, 7]
+    (by decide +kernel) (by decide +kernel) (by rw [hu]; decide +kernel), hu,
+    show whereIsin ([2, 5/2, 3, 7/2, 4, 9/2, 5, 11/2, 6, 13/2, 7] : List ℚ) [2, 3, 4, 5, 6, 7]
+      = [0, 2, 4, 6, 8, 10] by decide +kernel]
+  rfl
+
+/-- the same operations with acceptable arguments are accepted in `sT` -/
+example : (step sT (.integralMatch pw2 none none "closest" "trapezoid" "trapezoid")).err = none := by
+  simp only [step, matchRef_eq pw2 sT.x sT.y sT.rx sT.ry none none "closest" "trapezoid" "trapezoid"
+    fpT .trapezoid .trapezoid fpT_ok (by decide +kernel) (by decide +kernel)]
+  decide +kernel
+
+example : (step sT (.recreate "pc" pw2 3 [] [] [] [])).err = none ∧
+    (step sT (.truncV 3 6 false false)).err = none ∧
+    (step sT (.truncI 1 (some 7))).err = none ∧
+    (step sT (.interpX [2, 3, 5, 7] "constant" [])).err = none := by decide +kernel
+
+/-- one rejected operation per class; each leaves `sT` untouched by `reject_untouched` -/
+example : (step sT (.recreate "pc" pw2 1 [] [] [] [])).err = some .valueError := by decide +kernel
+example : (step sT (.recreateExt 0 [])).err = some .valueError := by decide +kernel
+example : (step sT (.integralMatch pw2 none none "closest" "trapezoid" "simpson")).err
+    = some .valueError := by
+  rw [match_unknown_ref_rule sT pw2 none none "closest" "trapezoid" "simpson" fpT fpT_ok (by decide)]
+  rfl
+example : (step sT (.integralMatch pw2 none none "closest" "simpson" "trapezoid")).err
+    = some .valueError := by
+  rw [match_unknown_target_rule sT pw2 none none "closest" "simpson" "trapezoid" fpT .trapezoid fpT_ok
+    (by decide) (by decide) (by decide +kernel)]
+  rfl
+example : (step sT (.integralMatch pw2 none none "nearest" "trapezoid" "trapezoid")).err
+    = some .valueError := by decide +kernel
+example : (step sT (.integralMatch pw2 (some [1, 2, 3, 4, 5, 6, 7, 8, 9, 10, 11, 12]) none "closest"
+    "trapezoid" "trapezoid")).err = some .valueError := by decide +kernel
+example : (step sT (.integralMatch pw2 none (some [0, 1, 2, 3, 4, 5, 6, 7, 8, 9, 10, 11]) "closest"
+    "trapezoid" "trapezoid")).err = some .valueError := by decide +kernel
+example : (step sT (.integralMatch pw2 (some [2, 3, 31/10, 7]) none "closest" "trapezoid"
+    "trapezoid")).err = some .valueError := by
+  rw [fixed_points_not_samples sT pw2 [2, 3, 31/10, 7] "closest" "trapezoid" "trapezoid"
+    (by decide +kernel) (by decide +kernel) (by decide +kernel) (by decide +kernel) (31/10)
+    (by simp) (by decide +kernel)]
+  rfl
+example : (step sT (.interpN 5 "quadratic" [])).err = some .valueError := by decide +kernel
+example : (step sT (.interpX [2, 3, 7] "quadratic" [])).err = some .valueError := by decide +kernel
+example : (step sT (.interpX [2, 3, 8] "linear" [])).err = some .valueError := by decide +kernel
+example : (step sT (.interpX [1, 3, 7] "linear" [])).err = some .valueError := by decide +kernel
+example : (step sT (.truncV 6 3 false false)).err = some .valueError := by decide +kernel
+example : (step sT (.truncV 3 3 false false)).err = some .valueError := by decide +kernel
+example : (step sT (.truncV (3/4) (1/4) true true)).err = some .valueError := by decide +kernel
+example : (step sT (.truncI (-1) none)).err = some .valueError := by decide +kernel
+example : (step sT (.truncI 0 (some 12))).err = some .valueError := by decide +kernel
+example : sliceByIndex sT (-1) none 1 = .error .valueError := by decide +kernel
+example : sliceByIndex sT 0 (some 12) 1 = .error .valueError := by decide +kernel
+example : sliceByValue sT (some 100) none 1 = .error .valueError := by decide +kernel
+example : sliceByValue sT none (some (31/10)) 1 = .error .valueError := by decide +kernel
+example : sliceByValue sT (some 2) (some 3) 1 = .ok ([2, 5/2, 3], [6, 11, 16]) := by decide +kernel
+example : init (some x5) [1, 2] = .error .valueError := init_length_mismatch _ _ (by decide)
+example : from2d ([[1, 2], [3, 4, 5]] : List (List ℚ)) = .error .valueError :=
+  from2d_bad_shape _ ⟨[3, 4, 5], by simp, by decide⟩
+
+/-- `appendOne` is the operation that can fail half-way (with `IndexError`, on a series too short):
+here a one-sample series -/
+private def s1 : State ℚ :=
+  { x := [1], y := [1], rx := [1], ry := [1], ox := [1], oy := [1], callerX := [], callerY := [] }
+
+example : (step s1 (.appendOne true)).err = some .indexError := by decide +kernel
 
 end TWV.C20
